@@ -44,7 +44,7 @@ def shards(tier: str, seed: int) -> list[dict[str, Any]]:
 def required_reach(tier: str) -> dict[str, int]:
     return {"client.reads": 2000, "client.writes": 500, "split.inside-line": 500, "coalesced": 100, "timeout.mid-line": 200, "timeout.empty-buffer": 20,
             "eof.boundary": 50, "eof.mid-line": 200, "server.requests": 1000, "server.eof.mid-line": 50, "kind.tcp-lines": 100, "kind.unix-lines": 100,
-            "long-message": 5, "burst": 5}
+            "long-message": 5, "burst": 5, "connect-path": 20}
 
 
 def gen_messages(rng: random.Random, short: bool) -> list[bytes]:
@@ -58,6 +58,42 @@ def gen_messages(rng: random.Random, short: bool) -> list[bytes]:
         return [rng.randbytes(rng.randint(1, 6)) for _ in range(rng.randint(50, 200))]
     specials = [b"\x00", b"\x0a", b"\x0d\x0a", b"\xff" * 3, b"\x20\x09", bytes(range(256))]
     return [rng.choice(specials) if rng.random() < 0.2 else rng.randbytes(rng.choice([1, 2, 3, 16, 255, 256, rng.randint(1, 600)])) for _ in range(rng.randint(1, 12))]
+
+
+async def connect_path_case(kind: str, msgs: list[bytes]) -> dict[str, Any]:
+    """through the production connect() (asyncio.open_connection / open_unix_connection replaced by the in-memory hub, which honours
+    the stream limit the production code asks for): the peer echoes every line back"""
+    from vf import gateway
+    from gallia.transports.tcp import TCPLinesTransport
+    from gallia.transports.unix import UnixLinesTransport
+
+    def split(buf: bytearray) -> list[bytes]:
+        out = []
+        while b"\n" in buf:
+            i = buf.index(b"\n")
+            out.append(bytes(buf[: i + 1]))
+            del buf[: i + 1]
+        return out
+
+    def factory(n: int) -> Any:
+        g = gateway.Gateway(split)
+        g.on_client_frame = lambda now, f: g.send(0.001, f, "echo", header_len=0)
+        return g
+
+    got: list[Any] = []
+    with gateway.GatewayHub(factory):
+        if kind == "tcp-lines":
+            tr = await TCPLinesTransport.connect("tcp-lines://192.0.2.1:1234", timeout=1.0)
+        else:
+            tr = await UnixLinesTransport.connect("unix-lines:///nonexistent/vf.sock", timeout=1.0)
+        for m in msgs:
+            await tr.write(m, timeout=1.0)
+            try:
+                got.append(await tr.read(timeout=1.0))
+            except Exception as e:
+                got.append(("exc", type(e).__name__))
+        await tr.close()
+    return {"got": got}
 
 
 def encode(msgs: list[bytes]) -> bytes:
@@ -256,6 +292,20 @@ class Mon:
         if delivered != msgs:
             ctx.violation("client/read/timeout-consumes-data", "after a read timed out mid-line the next reads do not deliver the complete messages", {**w, "got": got[:8]})
 
+    def check_connect_path(self, kind: str, msgs: list[bytes]) -> None:
+        ctx = self.ctx
+        ctx.case((kind, "connect-path", hash(tuple(msgs))), nontrivial=True)
+        ctx.reach("connect-path")
+        w = {"kind": kind, "lengths": [len(m) for m in msgs][:12]}
+        out = self.run(connect_path_case(kind, msgs), w, f"client/{kind}/connect-path")
+        if out is None:
+            return
+        if out["got"] != msgs:
+            bad = next((i for i, (a, b) in enumerate(zip(out["got"], msgs)) if a != b), 0)
+            ln = len(msgs[bad])
+            ctx.violation(f"client/connect-path/{kind}/message-not-delivered/{'len>2048' if ln > 2048 else 'len<=2048'}",
+                          "a message echoed by the peer over a connection opened with connect() is not delivered intact", {**w, "first_bad": bad, "got": out["got"][bad] if bad < len(out["got"]) else None})
+
     def check_write(self, kind: str, msgs: list[bytes]) -> None:
         ctx = self.ctx
         ctx.case((kind, "write", hash(tuple(msgs))), nontrivial=True)
@@ -334,6 +384,8 @@ def run(ctx: Any, params: dict[str, Any]) -> None:
         for cuts in plans:
             mon.check_read(kind, msgs, cuts, rng.choice([0, 0, 0.001]), rng.choice([None, None, rng.randrange(len(stream) + 1)]))
         mon.check_write(kind, msgs)
+        if i % 4 < 2:
+            mon.check_connect_path(kind, [rng.randbytes(n) for n in rng.sample([1, 2, 255, 2047, 2048, 2049, 3000, 4094, 4095], 4)] + msgs[:3])
         mon.check_server(msgs, plans[1], rng.choice([None, None, rng.randrange(len(stream) + 1)]))
         if i % 20 == 0:
             ctx.sample({"kind": kind, "messages": [m for m in msgs[:4]], "cuts": plans[1][:8]})
